@@ -196,6 +196,22 @@ struct static_array  // NOLINT(fuchsia-multiple-inheritance) : multiple inherita
 		this->base_ = array_alloc::allocate(static_cast<typename multi::allocator_traits<typename static_array::allocator_type>::size_type>(this->static_array::num_elements()));
 	}
 
+	// Runs the element construction of a constructor body.  The storage was obtained in the mem-initializer and the
+	// destructor does not run for an object whose constructor throws, so the block is returned here before rethrowing
+	// (the uninitialized_* algorithms have already destroyed whatever elements they had constructed).
+	template<class Construct>
+#if __cplusplus >= 202002L || (defined(_MSVC_LANG) && _MSVC_LANG >= 202002L)
+	constexpr
+#endif
+	void construct_or_deallocate_(Construct&& construct) {
+		try {
+			std::forward<Construct>(construct)();
+		} catch(...) {
+			deallocate();
+			throw;
+		}
+	}
+
  public:
 	using value_type = typename std::conditional_t<
 		(D > 1),  // this parenthesis is needed
@@ -263,15 +279,17 @@ struct static_array  // NOLINT(fuchsia-multiple-inheritance) : multiple inherita
 		range_extensions_(first, last)
 	)
 	{
+		construct_or_deallocate_([&] {
 	#if defined(__clang__) && defined(__CUDACC__)
-		// TODO(correaa) add workaround for non-default constructible type and use adl_alloc_uninitialized_default_construct_n
-		if constexpr(! std::is_trivially_default_constructible_v<typename static_array::element_type> && ! multi::force_element_trivial_default_construction<typename static_array::element_type> ) {
-			adl_alloc_uninitialized_default_construct_n(static_array::alloc(), ref::data_elements(), ref::num_elements());
-		}
-		adl_copy_n(first, last - first, ref::begin());
+			// TODO(correaa) add workaround for non-default constructible type and use adl_alloc_uninitialized_default_construct_n
+			if constexpr(! std::is_trivially_default_constructible_v<typename static_array::element_type> && ! multi::force_element_trivial_default_construction<typename static_array::element_type> ) {
+				adl_alloc_uninitialized_default_construct_n(static_array::alloc(), ref::data_elements(), ref::num_elements());
+			}
+			adl_copy_n(first, last - first, ref::begin());
 	#else
-		adl_alloc_uninitialized_copy(static_array::alloc(), first, last, ref::begin());
+			adl_alloc_uninitialized_copy(static_array::alloc(), first, last, ref::begin());
 	#endif
+		});
 	}
 
 	template<class It, class = typename std::iterator_traits<std::decay_t<It>>::difference_type>
@@ -296,14 +314,16 @@ struct static_array  // NOLINT(fuchsia-multiple-inheritance) : multiple inherita
 	: array_alloc{alloc}, ref{
 		                      array_alloc::allocate(static_cast<typename multi::allocator_traits<allocator_type>::size_type>(other.num_elements())),
 		                      other.extensions()} {
+		construct_or_deallocate_([&] {
 	#if defined(__clang__) && defined(__CUDACC__)
-		if constexpr(! std::is_trivially_default_constructible_v<typename static_array::element_type> && ! multi::force_element_trivial_default_construction<typename static_array::element_type> ) {
-			adl_alloc_uninitialized_default_construct_n(static_array::alloc(), this->data_elements(), this->num_elements());
-		}
-		adl_copy_n(other.data_elements(), other.num_elements(), this->data_elements());
+			if constexpr(! std::is_trivially_default_constructible_v<typename static_array::element_type> && ! multi::force_element_trivial_default_construction<typename static_array::element_type> ) {
+				adl_alloc_uninitialized_default_construct_n(static_array::alloc(), this->data_elements(), this->num_elements());
+			}
+			adl_copy_n(other.data_elements(), other.num_elements(), this->data_elements());
 	#else
-		adl_alloc_uninitialized_copy_n(static_array::alloc(), other.data_elements(), other.num_elements(), this->data_elements());
+			adl_alloc_uninitialized_copy_n(static_array::alloc(), other.data_elements(), other.num_elements(), this->data_elements());
 	#endif
+		});
 	}
 
 	// static_array(array_ref<T, D, typename static_array::element_move_ptr, typename static_array::layout_t>&& other)
@@ -318,7 +338,9 @@ struct static_array  // NOLINT(fuchsia-multiple-inheritance) : multiple inherita
 
 	static_array(typename static_array::extensions_type extensions, typename static_array::element_type const& elem, allocator_type const& alloc)  // 2
 	: array_alloc{alloc}, ref{array_alloc::allocate(static_cast<typename multi::allocator_traits<allocator_type>::size_type>(typename static_array::layout_t{extensions}.num_elements()), nullptr), extensions} {
-		array_alloc::uninitialized_fill_n(this->data_elements(), static_cast<typename multi::allocator_traits<allocator_type>::size_type>(this->num_elements()), elem);
+		construct_or_deallocate_([&] {
+			array_alloc::uninitialized_fill_n(this->data_elements(), static_cast<typename multi::allocator_traits<allocator_type>::size_type>(this->num_elements()), elem);
+		});
 	}
 
 	// template<class... Exts, class... Ts>
@@ -345,11 +367,13 @@ struct static_array  // NOLINT(fuchsia-multiple-inheritance) : multiple inherita
 			nullptr
 		)
 	) {
-		if constexpr(! std::is_trivially_default_constructible_v<typename static_array::element_type>) {
-			array_alloc::uninitialized_fill_n(this->base(), static_cast<typename multi::allocator_traits<allocator_type>::size_type>(this->num_elements()), elem);
-		} else {  // this workaround allows constexpr arrays for simple types
-		                           adl_fill_n(this->base(), static_cast<typename multi::allocator_traits<allocator_type>::size_type>(this->num_elements()), elem);
-		}
+		construct_or_deallocate_([&] {
+			if constexpr(! std::is_trivially_default_constructible_v<typename static_array::element_type>) {
+				array_alloc::uninitialized_fill_n(this->base(), static_cast<typename multi::allocator_traits<allocator_type>::size_type>(this->num_elements()), elem);
+			} else {  // this workaround allows constexpr arrays for simple types
+			                           adl_fill_n(this->base(), static_cast<typename multi::allocator_traits<allocator_type>::size_type>(this->num_elements()), elem);
+			}
+		});
 	}
 
 	template<class ValueType, class = decltype(std::declval<ValueType>().extensions()),
@@ -368,7 +392,9 @@ struct static_array  // NOLINT(fuchsia-multiple-inheritance) : multiple inherita
 
 	constexpr explicit static_array(typename static_array::extensions_type extensions, allocator_type const& alloc)
 	: array_alloc{alloc}, ref(array_alloc::allocate(static_cast<typename multi::allocator_traits<allocator_type>::size_type>(typename static_array::layout_t{extensions}.num_elements())), extensions) {
-		uninitialized_default_construct();
+		construct_or_deallocate_([&] {
+			uninitialized_default_construct();
+		});
 		assert(this->stride() != 0);
 	}
 
@@ -390,7 +416,9 @@ struct static_array  // NOLINT(fuchsia-multiple-inheritance) : multiple inherita
 		// }
 		// adl_copy_n                    (                       other.elements().begin(), this->num_elements(), this->data_elements());
 		// #else
-		adl_alloc_uninitialized_copy_n(static_array::alloc(), other.elements().begin(), this->num_elements(), this->data_elements());
+		construct_or_deallocate_([&] {
+			adl_alloc_uninitialized_copy_n(static_array::alloc(), other.elements().begin(), this->num_elements(), this->data_elements());
+		});
 		// #endif
 	}
 
@@ -403,7 +431,9 @@ struct static_array  // NOLINT(fuchsia-multiple-inheritance) : multiple inherita
 		  array_alloc::allocate(static_cast<typename multi::allocator_traits<allocator_type>::size_type>(typename static_array::layout_t{other.extensions()}.num_elements())),
 		  other.extensions()
 	  ) {
-		adl_alloc_uninitialized_copy_n(static_array::alloc(), std::move(other).elements().begin(), this->num_elements(), this->data_elements());
+		construct_or_deallocate_([&] {
+			adl_alloc_uninitialized_copy_n(static_array::alloc(), std::move(other).elements().begin(), this->num_elements(), this->data_elements());
+		});
 	}
 
 	template<
@@ -446,7 +476,9 @@ struct static_array  // NOLINT(fuchsia-multiple-inheritance) : multiple inherita
 	// cppcheck-suppress noExplicitConstructor ; to allow terse syntax
 	/*mplct*/ static_array(array_ref<TT, D, Args...>& other)  // NOLINT(google-explicit-constructor,hicpp-explicit-conversions)  // NOSONAR
 	: array_alloc{}, ref{array_alloc::allocate(static_cast<typename multi::allocator_traits<allocator_type>::size_type>(other.num_elements())), other.extensions()} {
-		static_array::uninitialized_copy_elements(other.data_elements());
+		construct_or_deallocate_([&] {
+			static_array::uninitialized_copy_elements(other.data_elements());
+		});
 	}
 
 	template<class TT, class... Args,
@@ -454,7 +486,9 @@ struct static_array  // NOLINT(fuchsia-multiple-inheritance) : multiple inherita
 	explicit static_array(array_ref<TT, D, Args...>& other)  // NOLINT(fuchsia-default-arguments-declarations)
 	: array_alloc{}, ref{array_alloc::allocate(static_cast<typename multi::allocator_traits<allocator_type>::size_type>(other.num_elements())), other.extensions()} {
 		assert(this->stride() != 0);
-		static_array::uninitialized_copy_elements(other.data_elements());
+		construct_or_deallocate_([&] {
+			static_array::uninitialized_copy_elements(other.data_elements());
+		});
 	}
 
 	template<class TT, class... Args,
@@ -463,7 +497,9 @@ struct static_array  // NOLINT(fuchsia-multiple-inheritance) : multiple inherita
 	/*mplct*/ static_array(array_ref<TT, D, Args...>&& other)  // NOLINT(google-explicit-constructor,hicpp-explicit-conversions)  // NOSONAR
 	: array_alloc{}, ref{array_alloc::allocate(static_cast<typename multi::allocator_traits<allocator_type>::size_type>(other.num_elements())), other.extensions()} {
 		assert(this->stride() != 0);
-		static_array::uninitialized_copy_elements(std::move(other).data_elements());
+		construct_or_deallocate_([&] {
+			static_array::uninitialized_copy_elements(std::move(other).data_elements());
+		});
 	}
 
 	template<class TT, class... Args,
@@ -471,7 +507,9 @@ struct static_array  // NOLINT(fuchsia-multiple-inheritance) : multiple inherita
 	explicit static_array(array_ref<TT, D, Args...>&& other)  // NOLINT(fuchsia-default-arguments-declarations)
 	: array_alloc{}, ref{array_alloc::allocate(static_cast<typename multi::allocator_traits<allocator_type>::size_type>(other.num_elements())), other.extensions()} {
 		assert(this->stride() != 0);
-		static_array::uninitialized_copy_elements(std::move(other).data_elements());
+		construct_or_deallocate_([&] {
+			static_array::uninitialized_copy_elements(std::move(other).data_elements());
+		});
 	}
 
 	template<class TT, class... Args,
@@ -480,7 +518,9 @@ struct static_array  // NOLINT(fuchsia-multiple-inheritance) : multiple inherita
 	/*mplct*/ static_array(array_ref<TT, D, Args...> const& other)  // NOLINT(google-explicit-constructor,hicpp-explicit-conversions)  // NOSONAR
 	: array_alloc{}, ref{array_alloc::allocate(static_cast<typename multi::allocator_traits<allocator_type>::size_type>(other.num_elements())), other.extensions()} {
 		assert(this->stride() != 0);
-		static_array::uninitialized_copy_elements(other.data_elements());
+		construct_or_deallocate_([&] {
+			static_array::uninitialized_copy_elements(other.data_elements());
+		});
 	}
 
 	template<class TT, class... Args,
@@ -493,7 +533,9 @@ struct static_array  // NOLINT(fuchsia-multiple-inheritance) : multiple inherita
 		other.extensions()
 	) {
 		assert(this->stride() != 0);
-		static_array::uninitialized_copy_elements(std::move(other).data_elements());
+		construct_or_deallocate_([&] {
+			static_array::uninitialized_copy_elements(std::move(other).data_elements());
+		});
 	}
 
 	static_array(static_array const& other)  // 5b
@@ -510,14 +552,18 @@ struct static_array  // NOLINT(fuchsia-multiple-inheritance) : multiple inherita
 		}
 	{
 		assert(this->stride() != 0);
-		uninitialized_copy_elements(other.data_elements());
+		construct_or_deallocate_([&] {
+			uninitialized_copy_elements(other.data_elements());
+		});
 	}
 
 	template<class ExecutionPolicy, std::enable_if_t<!std::is_convertible_v<ExecutionPolicy, typename static_array::extensions_type>, int> =0>  // NOLINT(modernize-use-constraints) TODO(correaa)
 	static_array(ExecutionPolicy&& policy, static_array const& other)
 	: array_alloc{multi::allocator_traits<allocator_type>::select_on_container_copy_construction(other.alloc())}, ref{array_alloc::allocate(static_cast<typename multi::allocator_traits<allocator_type>::size_type>(other.num_elements()), other.data_elements()), extensions(other)} {
 		assert(this->stride() != 0);
-		uninitialized_copy_elements(std::forward<ExecutionPolicy>(policy), other.data_elements());
+		construct_or_deallocate_([&] {
+			uninitialized_copy_elements(std::forward<ExecutionPolicy>(policy), other.data_elements());
+		});
 	}
 
 	// cppcheck-suppress noExplicitConstructor ; to allow assignment-like construction of nested arrays
